@@ -363,8 +363,8 @@ pair0_sock_send(void *arg, nni_aio *aio)
 		return;
 	}
 
-	// Can we maybe queue it.
-	if (nni_lmq_put(&s->wmq, m) == 0) {
+	// Can we maybe queue it.  (Not ahead of senders that are already waiting.)
+	if (nni_list_empty(&s->waq) && (nni_lmq_put(&s->wmq, m) == 0)) {
 		// Yay, we can.  So we're done.
 		nni_aio_set_msg(aio, NULL);
 		nni_aio_finish(aio, 0, len);
